@@ -85,6 +85,7 @@ func canary(i int) byte { return 0x80 | byte(7*i+1) }
 // guard is one input inside its larger buffer.
 type guard struct {
 	name       string
+	rnd        bool
 	orig       []byte
 	buf, saved []byte
 	off, n, cp int
@@ -105,7 +106,11 @@ func newGuard(name string, b []byte, l layout) *guard {
 func (g *guard) in() []byte { return g.buf[g.off : g.off+g.n : g.off+g.cp] }
 
 func (g *guard) token() string {
-	return fmt.Sprintf("%s=%d,%d,%d,%d:%s", g.name, g.off, g.n, g.cp, len(g.buf), abbrev(g.orig))
+	v := abbrev(g.orig)
+	if g.rnd {
+		v = fmt.Sprintf("#%d.unseeded-library-output", len(g.orig))
+	}
+	return fmt.Sprintf("%s=%d,%d,%d,%d:%s", g.name, g.off, g.n, g.cp, len(g.buf), v)
 }
 
 func abbrev(b []byte) string {
@@ -211,6 +216,10 @@ type spec struct {
 	// outputBuf marks inputs (by index) that are output buffers (io.Reader.Read): only the canaries
 	// outside the slice's length are compared and it is not treated as an input value.
 	outputBuf map[int]bool
+	// rndIn marks inputs (by index) whose value comes from an operation whose randomness cannot be
+	// seeded (ML-KEM / X-Wing encapsulation uses the runtime's DRBG): only the length is put into
+	// the line
+	rndIn map[int]bool
 	mk        func() (*inst, error)
 	lays      []layout // nil = layouts()
 }
@@ -303,6 +312,7 @@ func (e *engine) runLayout(s spec, l layout, baseOuts [][]byte, baseRes, baseObs
 	toks := []string{l.name}
 	for i, x := range s.ins {
 		guards[i] = newGuard(x.name, x.val, l)
+		guards[i].rnd = s.rndIn[i]
 		toks = append(toks, guards[i].token())
 	}
 	if s.extra != "" {
